@@ -125,6 +125,8 @@ def multi(ctx, drv):
                 t += F(rng.randint(0, 3 * 1000), 1000 * tps) if rng.random() < 0.5 else F(rng.randint(0, 4), tps)
             if rng.random() < 0.05:
                 t += F(nticks, tps)
+            if rng.random() < 0.2:
+                t = F(math.ceil(t * tps), tps)       # exactly on the next tick boundary (same tick as an earlier off-grid arrival)
             if dec(t) is None or len(dec(t)) > 16:
                 t = F(int(t * tps), tps) if dec(F(int(t * tps), tps)) else F(int(t))
             fr.append(t)
